@@ -94,7 +94,8 @@ func (r *netRegistry) openPairs() int {
 
 type countingConn struct {
 	net.Conn
-	end *pipeEnd
+	end  *pipeEnd
+	hold atomic.Pointer[chan struct{}] // when set, writes wait until the channel is closed (server side: SrvHoldClose)
 }
 
 func (c *countingConn) Read(p []byte) (int, error) {
@@ -111,6 +112,9 @@ func (c *countingConn) Read(p []byte) (int, error) {
 }
 
 func (c *countingConn) Write(p []byte) (int, error) {
+	if g := c.hold.Load(); g != nil {
+		<-*g
+	}
 	n, err := c.Conn.Write(p)
 	if n > 0 {
 		c.end.wrote.Add(int64(n))
